@@ -282,6 +282,8 @@ def run_scenario(sc, scratch, keep_objects=False):
             elif st['kind'] == 'remove':
                 if os.path.exists(p):
                     os.remove(p)
+            elif st['kind'] == 'author':
+                emdfile.set_author(st['name'])      # the session's author changes between two saves: files already written keep theirs
             obs.append({'slot': abs_slot(p)})
         elif st['op'] == 'save':
             inp = st.get('input')
